@@ -1336,7 +1336,7 @@ impl Driver {
             let ok = if enabling { all_zero(&post_table) } else { expect.table() == post_table };
             if !ok {
                 self.violate(
-                    &["C14"],
+                    if matches!(op, Op::Get { .. }) { &["C14", "C13"][..] } else { &["C14"][..] },
                     format!("sketch:unexpected-change:{}", op.kind_name()),
                     format!("the popularity table after {} is not the table before it plus {} recorded lookup(s)", op.to_line(), if was_get { 1 } else { 0 }),
                 );
@@ -1381,7 +1381,7 @@ impl Driver {
             }
             if !ok {
                 self.violate(
-                    &["C14"],
+                    if matches!(op, Op::Get { .. }) { &["C14", "C13"][..] } else { &["C14"][..] },
                     format!("sketch:unexpected-change:{}", op.kind_name()),
                     format!(
                         "the popularity table after {} is not the table before it plus the first {} of the {} pending recorded lookup(s) (those that left the read queue)",
